@@ -358,3 +358,34 @@ package authenticode
 //@   ensures @encoded_text_fits_a_patch_blob len(ret0) <= 4294967295
 //@   allocbound 0 4 * len(x)
 //@   modifies nothing
+//@
+//@ func sortMsiFiles
+//@   property C09 C11
+//@   requires forall(k, 0, len(files), files[k] != nil)
+//@   on call sort.Slice(_, _) ret (): assume atcall(forall(k, 0, len(files), files[k] != nil)) ==> forall(k, 0, len(files), files[k] != nil)
+//@   ensures @sorting_permutes_the_entries_none_is_lost forall(k, 0, len(files), files[k] != nil)
+//@   modifies mem(files)
+//@
+//@ extern msiDecodeName
+//@   pure
+//@
+//@ func msiToTarDir
+//@   property C18 C09
+//@   requires comdoc.cdfOK(cdf) && tw != nil && parent != nil
+//@   modifies any bytes.Buffer, any bytes.Reader, any tar.Writer
+//@   loop 0 sig "for _, item := range files" invariant comdoc.cdfOK(cdf) && forall(k, 0, len(files), files[k] != nil) && !uid
+//@   ghost uid bool = false
+//@   before call tarAddFile(w, name, data): assert @class_id_entry_of_this_storage_goes_to_the_same_archive w == tw && !uid
+//@   on call tarAddFile(_, _, data) ret (e): uid = (e == nil && len(data) == 16)
+//@   before call msiToTarDir(c, w, it, p): assert @sub_storages_go_to_the_same_archive_from_the_same_document c == cdf && w == tw
+//@   before call (*comdoc.ComDoc).ReadStream(c, it): assert @streams_are_read_from_the_document_being_transformed c == cdf
+//@   before call io.Copy(dst, src): assert @stream_bytes_go_to_the_archive dst == iface(tw)
+//@   ensures @every_storage_even_an_empty_one_is_followed_by_its_class_id_entry ret0 == nil ==> uid
+//@
+//@ func tarAddFile
+//@   property C09
+//@   ghost hdrs int = 0
+//@   before call (*archive/tar.Writer).WriteHeader(w, h): assert @member_header_announces_the_exact_content_length w == tw && h.Size == len(contents) && h.Name == name && hdrs == 0
+//@   on call (*archive/tar.Writer).WriteHeader(_, _) ret (e): hdrs = hdrs + 1
+//@   before call (*archive/tar.Writer).Write(w, p): assert @content_follows_its_header w == tw && sameslice(p, contents) && hdrs == 1
+//@   modifies any bytes.Buffer, any tar.Writer
